@@ -75,6 +75,14 @@ pub mod v3 {
     #[cfg(kani)]
     #[path = "../../../weave/src/v3/shared.rs"]
     pub(crate) mod shared;
+    #[cfg(kani)]
+    #[path = "../../../weave/src/v3/sink.rs"]
+    pub(crate) mod sink;
+    #[cfg(kani)]
+    #[path = "../../../weave/src/v3/handshake.rs"]
+    pub(crate) mod handshake;
+    #[cfg(kani)]
+    pub use crate::error;
 }
 pub mod v5 {
     // the one item of the real v5/mod.rs that the codec refers to; extracted verbatim by weave
@@ -84,6 +92,12 @@ pub mod v5 {
     #[cfg(kani)]
     #[path = "../../../weave/src/v5/shared.rs"]
     pub(crate) mod shared;
+    #[cfg(kani)]
+    #[path = "../../../weave/src/v5/sink.rs"]
+    pub(crate) mod sink;
+    #[cfg(kani)]
+    #[path = "../../../weave/src/v5/handshake.rs"]
+    pub(crate) mod handshake;
     // the synchronous admission block of the v5 dispatcher's PUBLISH arm (see lib/weave.py gen_v5_pubgate)
     #[cfg(kani)]
     pub(crate) mod pubgate {
